@@ -381,8 +381,21 @@ class Interp:
             return NONE
         base = set(self._conj(base_live))
         val = frame.returns[-1][0]
-        for v, live in reversed(frame.returns[:-1]):
-            rel = tm.mk_and(*[c for c in self._conj(live) if c not in base])
+        rt = getattr(frame, "return_tries", None) or []
+        n = len(frame.returns)
+        for k in range(n - 2, -1, -1):
+            v, live = frame.returns[k]
+            conj = [c for c in self._conj(live) if c not in base]
+            # a return inside a try body: it is the result only if the body
+            # did not raise into a handler that returns something else
+            for tid, hts in (rt[k] if k < len(rt) else ()):
+                for ht in hts:
+                    atom = T("exc", ht, tid)
+                    if any(atom in self._conj(l2)
+                           for _, l2 in frame.returns[k + 1:]) and \
+                            self.assume(atom) is not False:
+                        conj.append(tm.mk_not(atom))
+            rel = tm.mk_and(*conj)
             val = tm.ite(rel, v, val)
         return val
 
@@ -486,6 +499,11 @@ class Interp:
     def st_Return(self, s, frame, live):
         v = self.eval(s.value, frame, live) if s.value is not None else NONE
         frame.returns.append((v, live))
+        if not hasattr(frame, "return_tries"):
+            frame.return_tries = []
+        while len(frame.return_tries) < len(frame.returns) - 1:
+            frame.return_tries.append(())
+        frame.return_tries.append(self.tries)
         self.emit("return", s, live, frame, value=v)
         return FALSE
 
@@ -1409,6 +1427,15 @@ class Interp:
                         return const(node_.value)
             if name == "name":
                 return const(base.args[1])
+            # a property defined on the enumeration (Plane.XY.normal_axis):
+            # a table lookup for a known member
+            c = self.prog.classes.get(base.args[0])
+            mth = self.prog.find_method(c, name) if c is not None else None
+            if mth is not None and mth.is_property and \
+                    frame.depth < self.max_depth + 2 and \
+                    mth.qualname not in self.stack:
+                return self.inline_call(mth, {mth.params[0]: base}, frame,
+                                        live, node, c)
             return tm.attr(base, name)
         if base.op == "named":
             return self.get_attr(base.args[1], name, frame, live, node) \
